@@ -218,5 +218,5 @@ fn freq_oracle(c: &FreqCase, rec: &Rec, ctx: &Ctx) -> Result<(), String> {
 }
 
 pub fn parts() -> Vec<PartDef> {
-    vec![part("deterministic", 15_000, 450_000, det_strat, det_oracle), part("frequencies", 480, 2_400, freq_strat, freq_oracle)]
+    vec![part("deterministic", 60_000, 1_200_000, det_strat, det_oracle), part("frequencies", 1_440, 4_800, freq_strat, freq_oracle)]
 }
